@@ -35,6 +35,9 @@ inductive Val where
   | ints (l : List Int)                         -- value of a typed `nargs='*'` positional
   | graph (kind : String) (toks : List String)  -- `make_graph_from_spec(kind, toks)`
   | param (n : String)                          -- a parameter of the helper's method (`F`, `formula_class`)
+  | toks (l : List String)                      -- a list of tokens (graph specification under construction;
+                                                --   the tokens collected for a `compose_two_parsers` action)
+  | pos                                         -- an unknown POSITIVE integer (order of a constructed graph)
   | opaque (src : String)                       -- value of an expression outside the fragment
   deriving Repr, DecidableEq, Inhabited
 
@@ -62,7 +65,7 @@ abbrev Ns := List (String × Val)
 /-! ### the options -/
 
 inductive Arity where
-  | zero | one | plus | star | other
+  | zero | one | plus | star | opt | other
   deriving Repr, DecidableEq
 
 def graphKind (action : String) : Option String := graphActions.lookup action
@@ -72,8 +75,10 @@ def _root_.Cnfgen.Gen.OptSpec.arity (o : OptSpec) : Arity :=
     (if o.nargs == "" && !o.positional then .zero else .other)
   else if (graphKind o.action).isSome then (if o.nargs == "" then .plus else .other)
   else if o.action == "" || o.action == "store" then
-    (if o.nargs == "" then .one else if o.nargs == "*" && o.positional then .star else .other)
+    (if o.nargs == "" then .one else if o.nargs == "*" && o.positional then .star
+     else if o.nargs == "?" && o.positional then .opt else .other)
   else if o.action == "PHPArgs" && o.nargs == "*" && o.positional then .star
+  else if o.action == "compose_two_parsers" && o.nargs == "*" && o.positional then .star
   else .other
 
 def constVal : Expr → Val
@@ -99,12 +104,13 @@ def typesOK : List String := ["", "int"] ++ intValidators
 
 /-- an option the generic interpreter understands -/
 def _root_.Cnfgen.Gen.OptSpec.standard (o : OptSpec) : Bool :=
-  !o.nested && o.odd.isEmpty && o.action != "PHPArgs" &&
+  !o.nested && o.odd.isEmpty && o.action != "PHPArgs" && o.action != "compose_two_parsers" && o.group == "" &&
   (match o.arity with
    | .zero => o.ty == "" && o.choices.isEmpty
    | .one => typesOK.contains o.ty && (o.choices.isEmpty || o.ty == "")
    | .plus => o.ty == "" && o.choices.isEmpty
    | .star => intValidators.contains o.ty && o.choices.isEmpty && !o.hasDefault
+   | .opt => false
    | .other => false) &&
   (o.positional || !o.flags.isEmpty) &&
   -- string defaults of typed options are converted by argparse after parsing: not modelled
@@ -239,6 +245,7 @@ def segments (s : CliSpec) : List String → Except CliErr (List String × List 
 /-- the action of option `o` applied to the tokens matched to it -/
 def bindOne (o : OptSpec) (toks : List String) : Except CliErr Ns :=
   if o.action == "PHPArgs" then phpArgs toks
+  else if o.action == "compose_two_parsers" then .ok [(o.dest, .toks toks)]   -- expanded by `expand` below
   else
     match o.arity with
     | .zero => .ok [(o.dest, o.flagVal)]
@@ -254,6 +261,11 @@ def bindOne (o : OptSpec) (toks : List String) : Except CliErr Ns :=
       (match toks.mapM (convertOne o) with
        | some vs => .ok [(o.dest, .ints (intsOf vs))]
        | none => .error .cliError)
+    | .opt =>
+      (match toks with
+       | [] => .ok [(o.dest, o.defaultVal)]
+       | [t] => (match convertOne o t with | some v => .ok [(o.dest, v)] | none => .error .cliError)
+       | _ => .error .cliError)
     | .other => .error (.unsupported "option")
 
 /-- `consume_optional`: the option takes its arguments from the front of the arguments that follow it -/
@@ -285,6 +297,9 @@ def counts : List Arity → Nat → Option (List Nat)
     | .one => if 1 + m ≤ L then (counts rest (L - 1)).map (1 :: ·) else none
     | .plus => if 1 + m ≤ L then (counts rest m).map ((L - m) :: ·) else none
     | .star => if m ≤ L then (counts rest m).map ((L - m) :: ·) else none
+    | .opt =>
+      if 1 + m ≤ L then (counts rest (L - 1)).map (1 :: ·)
+      else if m ≤ L then (counts rest L).map (0 :: ·) else none
     | _ => none
 
 /-- `_match_arguments_partial`: the longest prefix of the positionals whose pattern matches -/
@@ -333,17 +348,28 @@ def parseSegs : List OptSpec → List (OptSpec × List String) → Except CliErr
         | .error e => .error e
         | .ok more => .ok (more ++ bs ++ b)
 
-def positionals (s : CliSpec) : List OptSpec := s.opts.filter (·.positional)
+/-- the options of the sub-command's own parser (the others belong to the sub-parsers of a
+`compose_two_parsers` action) -/
+def mainOpts (s : CliSpec) : List OptSpec := s.opts.filter (fun o => !o.nested)
+
+def positionals (s : CliSpec) : List OptSpec := (mainOpts s).filter (·.positional)
 
 /-- every `required=True` option was given -/
 def requiredSeen (s : CliSpec) (b : Ns) : Bool :=
   s.opts.all (fun o => o.positional || !o.required || b.any (fun p => p.1 == o.dest))
 
-/-- the bindings made while parsing, latest first -/
-def parseArgs (s : CliSpec) (argv : List String) : Except CliErr Ns :=
+/-- no two different options of one mutually exclusive group -/
+def mutexOK (segs : List (OptSpec × List String)) : Bool :=
+  segs.all (fun p => segs.all (fun q => p.1.group == "" || p.1.group != q.1.group || p.1 == q.1))
+
+/-- the bindings made by the sub-command's own parser, latest first; the tokens of a
+`compose_two_parsers` action are kept as they are -/
+def parseRaw (s : CliSpec) (argv : List String) : Except CliErr Ns :=
   match segments s argv with
   | .error e => .error e
   | .ok (chunk0, segs) =>
+    if !mutexOK segs then .error .cliError
+    else
     match consumePos (positionals s) chunk0 segs.isEmpty with
     | .error e => .error e
     | .ok (ps, b0) =>
@@ -353,7 +379,53 @@ def parseArgs (s : CliSpec) (argv : List String) : Except CliErr Ns :=
         let b := more ++ b0
         if requiredSeen s b then .ok b else .error .cliError
 
-def defaults (s : CliSpec) : Ns := s.opts.map (fun o => (o.dest, o.defaultVal))
+/-! ### `compose_two_parsers` (clitools/cmdline.py)
+
+`TmpAction.__call__`: no token → error; `float(values[0])` succeeds → `parser1.parse_args(values, namespace=args)`,
+otherwise `parser2.parse_args(values, namespace=args)`.  The sub-parsers have positionals only; every token is
+an argument for them too (they only know `-h`), so the sub-parse is one final `consume_positionals`; only the
+dests of the CHOSEN sub-parser appear in the namespace. -/
+
+def subPositionals (s : CliSpec) (p : String) : List OptSpec :=
+  s.opts.filter (fun o => o.nested && o.parser == p && o.positional)
+
+def composeParse (s : CliSpec) (o : OptSpec) (toks : List String) : Except CliErr Ns :=
+  match o.compose, toks with
+  | [p1, p2], t :: _ =>
+    (match consumePos (subPositionals s (if pyFloatOk t then p1 else p2)) toks true with
+     | .error e => .error e
+     | .ok (rest, b) => if rest.isEmpty then .ok b else .error .cliError)
+  | [_, _], [] => .error .cliError
+  | _, _ => .error (.unsupported "compose")
+
+def composeOpt (s : CliSpec) (d : String) : Option OptSpec :=
+  s.opts.find? (fun o => o.dest == d && o.action == "compose_two_parsers" && !o.nested)
+
+/-- every token list collected for a composed action is parsed by the sub-parser it selects -/
+def expand (s : CliSpec) : Ns → Except CliErr Ns
+  | [] => .ok []
+  | (d, .toks l) :: rest =>
+    (match composeOpt s d with
+     | none => .error (.unsupported "token list")
+     | some o =>
+       match composeParse s o l with
+       | .error e => .error e
+       | .ok inner =>
+         match expand s rest with
+         | .error e => .error e
+         | .ok more => .ok (inner ++ more))
+  | p :: rest =>
+    (match expand s rest with
+     | .error e => .error e
+     | .ok more => .ok (p :: more))
+
+/-- the bindings made while parsing, latest first -/
+def parseArgs (s : CliSpec) (argv : List String) : Except CliErr Ns :=
+  match parseRaw s argv with
+  | .error e => .error e
+  | .ok b => expand s b
+
+def defaults (s : CliSpec) : Ns := (mainOpts s).map (fun o => (o.dest, o.defaultVal))
 
 /-! ### evaluation of the templates -/
 
@@ -386,7 +458,49 @@ def valEq : Val → Val → Option Bool
   | .str _, .int _ => some false
   | _, _ => Option.none
 
+/-- comparisons of an unknown positive integer with a constant that are decided all the same -/
+def cmpPos (op : String) (k : Int) : Option Bool :=
+  if op == "<" then (if k ≤ 1 then some false else Option.none)
+  else if op == "<=" then (if k ≤ 0 then some false else Option.none)
+  else if op == ">" then (if k ≤ 0 then some true else Option.none)
+  else if op == ">=" then (if k ≤ 1 then some true else Option.none)
+  else if op == "==" then (if k ≤ 0 then some false else Option.none)
+  else if op == "!=" then (if k ≤ 0 then some true else Option.none)
+  else Option.none
+
+/-- Python's integer `+ - * % //` (floor division; `x % 0`, `x // 0` raise: not evaluable) -/
+def evalBinop (op : String) (a b : Val) : Option Val :=
+  match a, b with
+  | .int x, .int y =>
+    if op == "+" then some (.int (x + y))
+    else if op == "-" then some (.int (x - y))
+    else if op == "*" then some (.int (x * y))
+    else if op == "%" then (if y == 0 then Option.none else some (.int (Int.fmod x y)))
+    else if op == "//" then (if y == 0 then Option.none else some (.int (Int.fdiv x y)))
+    else Option.none
+  | .opaque _, _ => some (.opaque "arithmetic")
+  | _, .opaque _ => some (.opaque "arithmetic")
+  | .pos, _ => some (.opaque "arithmetic")
+  | _, .pos => some (.opaque "arithmetic")
+  | _, _ => Option.none
+
+/-- `str(x)` of an element of a graph specification list -/
+def tokOf : Val → Option String
+  | .str s => some s
+  | .int i => some (toString i)
+  | _ => Option.none
+
+/-- `G.order()`: a graph built by a construction has at least one vertex (every `obtain_*` of graph_build.py
+refuses a non-positive size); the order of a graph read from a file is not known to the model -/
+def orderOf : Val → Val
+  | .graph k (c :: _) =>
+    if ((graphConstructions.lookup k).getD []).contains c then .pos else .opaque "order of a graph file"
+  | _ => .opaque "order"
+
 def evalCmp (op : String) (a b : Val) : Option Bool :=
+  match a, b with
+  | .pos, .int k => cmpPos op k
+  | _, _ =>
   if op == "==" then valEq a b
   else if op == "!=" then (valEq a b).map (!·)
   else
@@ -439,6 +553,25 @@ def evalE (ns : Ns) : Expr → Option Val
      | some true => evalE ns t
      | some false => evalE ns e)
   | .star e => evalE ns e
+  | .binop op a b =>
+    (match evalE ns a, evalE ns b with
+     | some va, some vb => evalBinop op va vb
+     | _, _ => Option.none)
+  | .order g => (evalE ns g).map orderOf
+  | .nil => some (.toks [])
+  | .cons h t =>
+    (match evalE ns h, evalE ns t with
+     | some vh, some (.toks l) =>
+       (match tokOf vh with
+        | some x => some (.toks (x :: l))
+        | Option.none => some (.opaque "graph specification"))
+     | some _, some _ => some (.opaque "graph specification")
+     | _, _ => Option.none)
+  | .mkgraph k spec =>
+    (match evalE ns spec with
+     | some (.toks l) => some (.graph k l)
+     | some _ => some (.opaque "graph")
+     | Option.none => Option.none)
   | .opaque src _ => some (.opaque src)
 
 def evalGuard (ns : Ns) (e : Expr) : Option Bool := (evalE ns e).bind truthy
@@ -496,6 +629,10 @@ def _root_.Cnfgen.Gen.Expr.opaqueFree : Expr → Bool
   | .or a b => a.opaqueFree && b.opaqueFree
   | .cmp _ a b => a.opaqueFree && b.opaqueFree
   | .ite c t e => c.opaqueFree && t.opaqueFree && e.opaqueFree
+  | .binop _ a b => a.opaqueFree && b.opaqueFree
+  | .order g => g.opaqueFree
+  | .cons h t => h.opaqueFree && t.opaqueFree
+  | .mkgraph _ sp => sp.opaqueFree
   | _ => true
 
 def templateOK (t : CallTemplate) : Bool :=
@@ -511,7 +648,34 @@ def _root_.Cnfgen.Gen.CliSpec.special (s : CliSpec) : Bool :=
   s.opts.all (fun o => (o.action == "PHPArgs" && o.arity == .star && !o.nested) || o.standard) &&
   !s.templates.isEmpty && s.templates.all templateOK
 
-def _root_.Cnfgen.Gen.CliSpec.supported (s : CliSpec) : Bool := s.standard || s.special
+/-- a flag of the sub-command's own parser that belongs to a mutually exclusive group -/
+def groupedFlag (o : OptSpec) : Bool :=
+  !o.nested && o.odd.isEmpty && o.arity == .zero && o.ty == "" && o.choices.isEmpty && !o.flags.isEmpty &&
+  !o.required
+
+/-- a positional of a sub-parser: one typed token, an optional typed token, or a graph -/
+def subOption (s : CliSpec) (o : OptSpec) : Bool :=
+  o.nested && o.positional && o.odd.isEmpty && o.compose.isEmpty && o.group == "" &&
+  s.opts.any (fun c => c.compose.contains o.parser) &&
+  (match o.arity with
+   | .one => typesOK.contains o.ty && (o.choices.isEmpty || o.ty == "")
+   | .opt => typesOK.contains o.ty && o.ty != "" && o.choices.isEmpty &&
+             (match o.defaultVal with | .none => true | .int _ => true | _ => false)
+   | .plus => o.ty == "" && o.choices.isEmpty
+   | _ => false)
+
+/-- the option carrying a `compose_two_parsers(p1, p2)` action -/
+def composeOption (o : OptSpec) : Bool :=
+  !o.nested && o.positional && o.odd.isEmpty && o.action == "compose_two_parsers" && o.arity == .star &&
+  o.compose.length == 2 && o.group == ""
+
+/-- sub-commands whose arguments go through `compose_two_parsers` (`op tseitin subsetcard xorcomp majcomp`) -/
+def _root_.Cnfgen.Gen.CliSpec.composed (s : CliSpec) : Bool :=
+  s.name != "" && s.opts.any composeOption &&
+  s.opts.all (fun o => o.standard || groupedFlag o || subOption s o || composeOption o) &&
+  !s.templates.isEmpty && s.templates.all (fun t => t.raises != "" || t.fn != "")
+
+def _root_.Cnfgen.Gen.CliSpec.supported (s : CliSpec) : Bool := s.standard || s.special || s.composed
 
 /-- the namespace `args` after parsing: the bindings made, over the defaults of the options -/
 def namespaceOf (s : CliSpec) (b : Ns) : Ns := b ++ defaults s
